@@ -8,3 +8,4 @@ import TsVerif.C06.Props
 #print axioms TsVerif.C06.int8_witness
 #print axioms TsVerif.C06.write_spec
 #print axioms TsVerif.C06.sexp_spec
+#print axioms TsVerif.C06.named_child_spec
